@@ -722,6 +722,17 @@ var bqlStatements = []string{
 }
 
 func runStress(runs int, seed int64) {
+	// every statement of the list must parse on its own, sequentially: otherwise the list is wrong (harness error)
+	for _, s := range bqlStatements {
+		if strings.Contains(s, "%d") {
+			s = fmt.Sprintf(s, 1)
+		}
+		p, err := grammar.NewParser(grammar.SemanticBQL())
+		must(err)
+		if err := p.Parse(grammar.NewLLk(s, 1), &semantic.Statement{}); err != nil {
+			must(fmt.Errorf("stress statement does not parse: %s: %v", s, err))
+		}
+	}
 	for run := 1; run <= runs; run++ {
 		rng := rand.New(rand.NewSource(seed*7919 + int64(run)))
 		st := memory.NewStore()
@@ -772,7 +783,15 @@ func runStress(runs int, seed int64) {
 						atomic.AddInt64(&nbql, 1)
 						if err := bql(st, s); err != nil {
 							if strings.HasPrefix(err.Error(), "parse:") {
-								must(fmt.Errorf("stress statement does not parse: %s: %v", s, err))
+								// every statement of the list parses on its own (checked at start-up): a parse error here
+								// is an answer no sequential execution gives - an observation, not a harness error
+								e := blank("Panic", run)
+								e.P, e.Info = i+1, firstLines("statement rejected by the parser only when parsed concurrently: "+s+": "+err.Error(), 3)
+								e.F1, e.Pk1 = "bql/grammar.(*Parser).Parse", "grammar"
+								mu.Lock()
+								bad = append(bad, e)
+								mu.Unlock()
+								continue
 							}
 							atomic.AddInt64(&nbqlerr, 1) // e.g. dropping a graph another goroutine just dropped
 						}
